@@ -157,6 +157,14 @@ def _fault_worker(item):
         with env.quiet():
             out = invoke(r, op, a, fc)
         delivered = list(h.delivered)
+        # the same call again on the same reader, storage healthy now (the retry after a transient error): the true data
+        retry = None
+        if delivered:
+            h.faults = {}
+            h.delivered = []
+            with env.quiet():
+                out2 = invoke(r, op, a, fc)
+            retry = judge(fc, out2, answers[ci], [], op, a)
         with env.quiet():
             try:
                 r.close()
@@ -165,7 +173,7 @@ def _fault_worker(item):
     except BaseException as e:        # the open itself is fault free; anything here is a harness problem
         return item, None, f'harness: {type(e).__name__}: {e}', []
     ok, detail = judge(fc, out, answers[ci], delivered, op, a)
-    return item, ok, detail, delivered
+    return item, ok, detail, delivered, retry
 
 
 def run(run):
@@ -217,10 +225,12 @@ def run(run):
                         items.append((fi, backend, ci, {k1: KINDS[int(rng.integers(3))], k2: KINDS[int(rng.integers(3))]}))
     par.G['files'] = files
     for item, res in zip(items, par.pmap(_fault_worker, items)):
+        retry = None
         if isinstance(res, par.Crash):
             ok, detail, delivered = False, f'worker process died ({res})', [(0, 'crash')]
         else:
-            _, ok, detail, delivered = res
+            _, ok, detail, delivered = res[:4]
+            retry = res[4] if len(res) > 4 else None
         fi, backend, ci, faults = item
         fc, calls, answers = files[fi]
         op, a = calls[ci]
@@ -231,6 +241,8 @@ def run(run):
         run.case(case, nontrivial=bool(delivered))
         if delivered:
             run.check(ok, f'C17.fault-surfaces[{op}]', dict(case, kinds=sorted(set(faults.values()))), detail, 'raises')
+            if retry is not None:
+                run.check(retry[0], f'C17.retry-after-fault[{op}]', dict(case, kinds=sorted(set(faults.values()))), retry[1], 'the true data once the storage is healthy')
         else:
             run.check(ok, f'C17.no-fault-true[{op}]', case, detail, 'ideal')
     # ---- completion orders of the concurrent blob reads
@@ -335,4 +347,10 @@ def replay(run, rep):
         with env.quiet():
             out = invoke(r, case['op'], case['args'], fc)
         ok, detail = judge(fc, out, ans, list(h.delivered), case['op'], case['args'])
+        if rep['clause'].startswith('C17.retry-after-fault'):
+            h.faults = {}
+            h.delivered = []
+            with env.quiet():
+                out = invoke(r, case['op'], case['args'], fc)
+            ok, detail = judge(fc, out, ans, [], case['op'], case['args'])
     run.check(ok, rep['clause'], case, detail, None)
